@@ -1,5 +1,5 @@
 """C08 -- BLOB payloads arrive bit-exact in both directions and never stall a link."""
-from pyvc.runner import Check, TaskSpec, run_tasks
+from pyvc.runner import Check, TaskSpec, run_tasks, PY_FULL
 from contracts import driver as D, buffer as B, router as R
 from checks import common, c04
 
@@ -11,8 +11,8 @@ def specs(tier):
            TaskSpec("client submit[BLOB]", "contracts.write", "task_submit", ("BLOB",), replay_kind="write.e2e"),
            TaskSpec("driver frame[BLOB]", "contracts.write", "task_frame", ("BLOB", None), replay_kind="write.e2e"),
            TaskSpec("driver apply[BLOB]", "contracts.write", "task_apply", ("BLOB", None), replay_kind="write.e2e"),
-           TaskSpec("driver publish element[blob.set]", "contracts.publish", "task_element", ("blob", "set"), replay_kind="driver.publish"),
-           TaskSpec("client.tcp receive", "contracts.transport", "task_client_receive", ()),
+           TaskSpec("driver publish element[blob.to_set_message]", "contracts.publish", "task_element", ("blob", "to_set_message"), replay_kind="driver.publish"),
+           TaskSpec("client.tcp receive", "contracts.transport", "task_client_receive", (), replay_kind="transport.prompt", python=PY_FULL, scenario=True),
            TaskSpec("Buffer.process terminates", "contracts.buffer", "task_process", (), replay_kind="buffer.process")]
     for which in ("client", "tcp", "tty"):
         out.append(TaskSpec("threshold call sites[%s]" % which, "contracts.write", "task_c08_threshold_sites", (which,), replay_kind="blob.upload"))
